@@ -110,10 +110,10 @@ CHECKS["C19"] = {
 }
 CHECKS["C18"] = {
   "level": "model_checking",
-  "technique": "TLA+ spec of registry, mailboxes, links, monitors and exit propagation (LocalProc.tla) model-checked by TLC over all interleavings of two client tasks with the process steps; TLC-generated operation sequences executed on a real Node with recording handlers; adversarial race schedule forced through guarded hooks",
-  "text": "TLC checks NameFreedAfterExit, HandledOnceInOrder, NoticeAtMostOnce on every interleaving (2 clients, 2-3 processes, 5 operations, two-step send_to_name and link) and LinkedNotifiedSeq on the sequential behaviours; it must find the counterexamples for NamesSurviveExit and for the late link. Operation sequences over spawn / register / unregister / send / send_to_name / kill / link / unlink / monitor / demonitor (length 4 exhaustive or sampled, length 8 simulated) run on a real node: per process the handled messages in order, the exit / down notices with identifier and reference, name resolution, liveness and each operation's outcome must equal the model's. The late-link schedule is forced on the real code and reported as KNOWN-FINDING C18-late-link.",
+  "technique": "TLA+ spec of registry, mailboxes, links, monitors and exit propagation (LocalProc.tla) and of the gen_server / gen_event behaviours (Behaviours.tla) model-checked by TLC over all interleavings of two client tasks with the process steps; TLC-generated operation sequences and behaviour scripts executed on a real Node (recording processes, scripted GenServer / GenEventHandler); adversarial race schedule forced through guarded hooks",
+  "text": "TLC checks NameFreedAfterExit, HandledOnceInOrder, NoticeAtMostOnce on every interleaving (2 clients, 2-3 processes, 5 operations, two-step send_to_name and link) and LinkedNotifiedSeq on the sequential behaviours; it must find the counterexamples for NamesSurviveExit and for the late link. Operation sequences over spawn / register / unregister / send / send_to_name / kill / link / unlink / monitor / demonitor (length 4 exhaustive or sampled, length 8 simulated) run on a real node: per process the handled messages in order, the exit / down notices with identifier and reference, name resolution, liveness and each operation's outcome must equal the model's. Links / monitors only: every sequence of 4 operations on two live processes (4754), the 244 with a removal followed by a termination always executed. Behaviours: AnswerOnce, AnswerToCaller, Answered, GeAnswered, EventOnce model-checked (2 callers + a ghost, 2 handlers, 2-3 operations: 37 k / 2.5 M states); scripts of 2 operations (sampled) and 7 operations (simulated) run on a real GenServerProcess and GenEventManager: caller inboxes, callback logs, handler instances, which_handlers and send outcomes must equal the model's. The late-link schedule is forced on the real code and reported as KNOWN-FINDING C18-late-link.",
   "design_ref": "DESIGN.md §5 C18",
-  "note": "Real executions are sequential apart from the one adversarial schedule; gen_server / gen_event call-reply not bound yet. Fake EPMD via the guarded port override.",
+  "note": "Real executions are sequential apart from the one adversarial schedule. Fake EPMD via the guarded port override.",
 }
 CHECKS["C07"] = {
   "level": "model_checking",
